@@ -34,7 +34,7 @@ def case(draw, tier="quick"):
                                     st.sampled_from(["", " ", "a", "Strategy", "x" * 33])),
                           min_size=n_names, max_size=n_names, unique=True))
     if draw(st.integers(0, 3)) == 0:  # names sharing a long prefix / differing in one character
-        base = draw(st.text(alphabet="abcXYZ-_ é漢", min_size=1, max_size=50))
+        base = draw(st.text(alphabet="abcXYZ-_ é漢", min_size=draw(st.sampled_from([1, 13, 24, 32, 40])), max_size=50))
         names = [base + suf for suf in ["", "1", "2", " ", "é"][:n_names]]
     sep_kind = draw(st.sampled_from(["valid", "valid", "valid", "invalid1", "len0", "len2", "any"]))
     if sep_kind == "valid":
